@@ -154,4 +154,46 @@ theorem C20_mode_no_panic (modes : List ModeDef) :
       rw [List.any_eq_true]; exact ⟨md, hmd, by simp [he]⟩
     simp [this]
 
+/-- **The guards of `relativeAdjustment` on a constructed model** (every configuration `NewModelModes` accepts,
+every stored map, every mode name, every int32 step).  (1) `len(values) == 0 { continue }` fires exactly for a name
+that is not one of the model's modes: a constructed model has no mode without values, so no known mode is skipped
+and `values[0]` - the "no current value" and the "unknown current value" branch - always exists.  (2) When the
+current value is found at index `i`, the index the code computes is within the list (`values[newI]` cannot go out
+of range), and it is the Euclidean `(i + k) mod n`.  Together: no indexing in the interceptor can panic. -/
+theorem C20_mode_indexing_safe (modes : List ModeDef) (m : Model) (hm : newModelModes modes = some m)
+    (n : String) (k : Int) :
+    (availableValues m.modes n = [] ↔ n ∉ m.modes.map (·.name)) ∧
+    (∀ cur i, indexOf (availableValues m.modes n) cur = some i →
+      0 ≤ wrapIndex i k (availableValues m.modes n).length ∧
+      (wrapIndex i k (availableValues m.modes n).length).toNat < (availableValues m.modes n).length ∧
+      wrapIndex i k (availableValues m.modes n).length =
+        ((i : Int) + k) % ((availableValues m.modes n).length : Int)) := by
+  have hne : ∀ md ∈ modes, md.values ≠ [] := by
+    intro md hmd he
+    have : newModelModes modes = none := (C20_mode_no_panic modes).2 ⟨md, hmd, he⟩
+    rw [this] at hm; cases hm
+  have hmodes : m.modes = modes := by
+    unfold newModelModes at hm
+    split at hm
+    · cases hm
+    · cases hm; rfl
+  rw [hmodes]
+  refine ⟨availableValues_nil_iff modes hne n, ?_⟩
+  intro cur i hi
+  have hpos : 0 < (availableValues modes n).length := by
+    cases hv : availableValues modes n with
+    | nil => rw [hv] at hi; simp [indexOf] at hi
+    | cons _ _ => simp
+  have hw := wrapIndex_eq i k _ hpos
+  have h1 := Int.emod_nonneg ((i : Int) + k) (b := ((availableValues modes n).length : Int)) (by omega)
+  have h2 := Int.emod_lt_of_pos ((i : Int) + k) (b := ((availableValues modes n).length : Int)) (by omega)
+  rw [hw]
+  exact ⟨h1, by omega, rfl⟩
+
+/-- the guard is needed: on a list with a value-less mode (which `NewModelModes` refuses) the mode IS known and has
+no first value - the state a constructor that accepted it would put the interceptor in -/
+example : newModelModes [⟨"speed", ["slow", "fast"]⟩, ⟨"scene", []⟩] = none ∧
+    availableValues [⟨"speed", ["slow", "fast"]⟩, ⟨"scene", []⟩] "scene" = [] ∧
+    "scene" ∈ [(⟨"speed", ["slow", "fast"]⟩ : ModeDef), ⟨"scene", []⟩].map (·.name) := by decide
+
 end ScVerif.C20.Mode
